@@ -423,6 +423,9 @@ fn run_sweep(c: &SweepCase) -> Outcome {
         // enumeration octets and the length are reproduced, unless the variant has opaque parts
         // or the sweep is over a subpacket type / body
         let mode = match codec::decode_packet(*tag, &b) {
+            // a user attribute sub-record is opaque data for which only the image header is
+            // looked into: whatever its version / format octet says, it is reproduced exactly
+            Ok(d) if d.canonical && *tag == 17 && path.starts_with("image-header/") => Identity::Full,
             Ok(d) if d.canonical && !d.fields.iter().any(|f| f.kind == Kind::Opaque) && !matches!(kind, Kind::SubpacketType | Kind::SubpacketBody | Kind::UserAttrSubType) => Identity::Enumerations,
             _ => Identity::None,
         };
